@@ -30,6 +30,7 @@ type evalCtx struct {
 	locals  bool  // may resolve source-level local names of t.fn
 	phi     map[*ssa.Phi]string
 	where   string
+	inOld   bool
 }
 
 type specErr struct{ msg string }
@@ -233,6 +234,12 @@ func (e *evalCtx) ident(name string) sval {
 	}
 	if v, ok := e.t.ghostVals[name]; ok {
 		return v
+	}
+	// a reassigned parameter: outside old() the name means its current value
+	if e.locals && !e.inOld && e.fn == e.t.fn {
+		if v, ok := e.local(name); ok {
+			return v
+		}
 	}
 	// parameters (by name) of the function whose contract this is
 	for i, p := range e.fn.Params {
@@ -567,7 +574,9 @@ func (e *evalCtx) callExpr(x *sx) sval {
 		if e.old == nil {
 			e.fail("old() not available here")
 		}
-		v := e.with(e.old).eval(args[0])
+		eo := e.with(e.old)
+		eo.inOld = true
+		v := eo.eval(args[0])
 		if v.st == nil {
 			v.st = e.old
 		}
@@ -665,6 +674,10 @@ func (e *evalCtx) callExpr(x *sx) sval {
 	case "held":
 		v := e.eval(args[0])
 		return boolv(sel(t.h.get(e.st, "held"), v.term))
+	case "shared":
+		v := e.eval(args[0])
+		t.h.reg(sharedHV, "(Array Int Bool)")
+		return boolv(sel(t.h.get(e.st, sharedHV), v.term))
 	case "closed":
 		v := e.eval(args[0])
 		return boolv(sel(t.h.get(e.st, "chclosed"), v.term))
